@@ -154,22 +154,25 @@ def target_container_emitter():
             asked = []
 
             class Con:
-                def __init__(self, name, n):
-                    self.name, self.n = name, n
+                def __init__(self, name, n, children=None):
+                    self.name, self.n, self.children = name, n, (n if children is None else children)
 
                 def get_elements(self):
                     return [0] * self.n
 
+                def __len__(self):                 # direct children: a connection can hold (emptied) nested connections and still have no element
+                    return self.children
+
                 def to_string(self, decimals=-1):
                     asked.append((self.name, decimals))
                     return f"<{self.name}>"
-            subs = {"Zeta": Con("zeta", 2), "X_1": None, "X_2": Con("x2", 0)}
+            subs = {"Zeta": Con("zeta", 2), "X_1": None, "X_2": Con("x2", 0), "Z_A": Con("za", 0, children=1)}
             me = type("C", (), {"_subcircuit_value": subs})()
             ns = {"super": lambda: type("S", (), {"to_string": lambda s, decimals=-1: own})(), "sorted": sorted, "len": len}
             O.load("circuit/base", ["Container.to_string"], ns)
             out = ns["to_string"](me, decimals=decimals)
             head, rest = own[:3], own[3:]
-            body = "X_1=open, X_2=short, Zeta=<zeta>"
+            body = "X_1=open, X_2=short, Z_A=short, Zeta=<zeta>"       # Z_A: no element although it has a (hollow) child -> short, never '[()]' 
             want = head + body + (", " + rest if rest[0] not in ":}" else rest)
             sess.check("post", [], z3.BoolVal(out == want and asked == [("zeta", decimals)]), 0, label=f"Container.to_string[{own!r}, decimals={decimals}]: sub-circuits in sorted order as open / short / text(same decimals), then the parameters")
         ns = {"super": lambda: type("S", (), {"to_string": lambda s, decimals=-1: "Tl"})(), "sorted": sorted, "len": len}
@@ -183,3 +186,87 @@ _targets_c03_with_element_emitter = targets
 
 def targets():      # noqa: F811
     return _targets_c03_with_element_emitter() + [target_container_emitter()]
+
+
+def target_limit_checks():
+    """the conditions under which the parser refuses a written limit: InvalidParameterLowerLimit is raised exactly when a lower
+    limit is given and lies strictly above the value, InvalidParameterUpperLimit exactly when an upper limit is given and lies
+    strictly below it -- so a value that sits ON one of its limits (what serialize() prints after a limit was moved onto the value,
+    `n=1` for a CPE, a 100 % limit) parses.  The guard of each `raise` (with the tests of the enclosing ifs of its function) is
+    translated to real arithmetic and compared with that specification; the counter-model is replayed through parse_cdc."""
+    import ast
+    import z3
+    from pyvc import core
+    from pyvc.core import Session
+
+    def run(sess: Session):
+        tree = core.module_ast("circuit/parser")
+        value, lower, upper = z3.Reals("value lower upper")
+        nan_lo, nan_up = z3.Bools("isnan_lower isnan_upper")
+        env = {"value": value, "lower": lower, "upper": upper}
+
+        def tr(e):
+            if isinstance(e, ast.BoolOp):
+                vs = [tr(v) for v in e.values]
+                return z3.And(*vs) if isinstance(e.op, ast.And) else z3.Or(*vs)
+            if isinstance(e, ast.UnaryOp) and isinstance(e.op, ast.Not):
+                return z3.Not(tr(e.operand))
+            if isinstance(e, ast.Call) and isinstance(e.func, ast.Name) and e.func.id == "isnan" and len(e.args) == 1 and isinstance(e.args[0], ast.Name) and e.args[0].id in ("lower", "upper"):
+                return nan_lo if e.args[0].id == "lower" else nan_up
+            if isinstance(e, ast.Compare) and len(e.ops) == 1 and all(isinstance(x, ast.Name) and x.id in env for x in [e.left, e.comparators[0]]):
+                a, b = env[e.left.id], env[e.comparators[0].id]
+                return {ast.Lt: a < b, ast.LtE: a <= b, ast.Gt: a > b, ast.GtE: a >= b, ast.Eq: a == b, ast.NotEq: a != b}[type(e.ops[0])]
+            raise NotImplementedError(ast.unparse(e)[:60])
+        spec = {"InvalidParameterLowerLimit": z3.And(z3.Not(nan_lo), lower > value), "InvalidParameterUpperLimit": z3.And(z3.Not(nan_up), upper < value)}
+        found = {k: 0 for k in spec}
+        for fn in [f for c in tree.body if isinstance(c, ast.ClassDef) and c.name == "Parser" for f in c.body if isinstance(f, ast.FunctionDef)]:
+            def walk(body, guards):
+                for s in body:
+                    if isinstance(s, ast.Raise) and isinstance(s.exc, ast.Call) and isinstance(s.exc.func, ast.Name) and s.exc.func.id in spec:
+                        name = s.exc.func.id
+                        found[name] += 1
+                        try:
+                            rel = [(g, pos) for g, pos in guards if any(isinstance(x, ast.Name) and x.id in ("value", "lower", "upper") for x in ast.walk(g))]
+                            cond = z3.And(*[tr(g) if pos else z3.Not(tr(g)) for g, pos in rel]) if rel else z3.BoolVal(True)
+                        except NotImplementedError as ex:
+                            sess.unsupported(f"{fn.name}: the guard of `raise {name}` uses {ex}", s.lineno)
+                            continue
+                        # an upper-limit error is only reached when the lower-limit test of the same statement list did not fire
+                        ctx = [] if name == "InvalidParameterLowerLimit" else [z3.Not(spec["InvalidParameterLowerLimit"])]
+                        ob = sess.check("post", ctx, cond == spec[name], s.lineno, label=f"{name} is raised exactly when the limit is given and strictly {'above' if 'Lower' in name else 'below'} the value")
+                        if ob.status == "refuted" and ob.model:
+                            from fractions import Fraction
+                            m = {k: float(Fraction(v.replace("?", ""))) for k, v in ob.model.items() if k in ("value", "lower", "upper") and "/" in v or v.replace(".", "").replace("-", "").isdigit()}
+                            v_ = m.get("value", 1.0)
+                            lo_ = m.get("lower", v_ - 1.0)
+                            up_ = m.get("upper", v_ + 1.0)
+                            if "Lower" in name:
+                                up_ = max(up_, v_ + 1.0, lo_ + 1.0)
+                            else:
+                                lo_ = min(lo_, v_ - 1.0, up_ - 1.0)
+                            accept = lo_ <= v_ <= up_ and lo_ < up_
+                            cdc = f"R{{R={v_!r}/{lo_!r}/{up_!r}}}"
+                            ob.replay = {"repro": "from pyimpspec import parse_cdc\nfrom pyimpspec.exceptions import ParsingError\n"
+                                                  f"cdc = {cdc!r}\nexpect_accept = {accept}\n"
+                                                  "try:\n    parse_cdc(cdc)\n    got = True\nexcept (ParsingError, ValueError) as ex:\n    got = False\n    print('refused:', type(ex).__name__, ex)\n"
+                                                  "assert got == expect_accept, (cdc, got, expect_accept)\n"}
+                    elif isinstance(s, ast.If):
+                        walk(s.body, guards + [(s.test, True)])
+                        walk(s.orelse, guards + [(s.test, False)])
+                    elif isinstance(s, (ast.For, ast.While, ast.With, ast.Try)):
+                        walk(s.body, guards)
+                        for h in getattr(s, "handlers", []):
+                            walk(h.body, guards)
+                        walk(getattr(s, "orelse", []), guards)
+                        walk(getattr(s, "finalbody", []), guards)
+            walk(fn.body, [])
+        for name, n in found.items():
+            sess.check("cover", [], z3.BoolVal(n >= 1), 0, label=f"`raise {name}` found in the parser")
+    return ("circuit/parser:Parser limit checks", "circuit/parser", "Parser.parameters", run)
+
+
+_targets_c03_with_container_emitter = targets
+
+
+def targets():      # noqa: F811
+    return _targets_c03_with_container_emitter() + [target_limit_checks()]
